@@ -252,6 +252,10 @@ func evalLine(line string) string {
 			}
 			tr := pk.TR()
 			res = hlib.Tok(shake256(64, tr[:], hlib.FromTok(toks[4])))
+		default:
+			if r, ok := codecRes(toks[1:]); ok {
+				res = r
+			}
 		}
 	})
 	if p != "" {
